@@ -186,6 +186,20 @@ CHECKS['C10'] = dict(
    technique="TLA+ machines = contract at every position (TLC) + spec->code replay of every stylesheet and position",
    ref="5/C10")
 
+CHECKS['C16'] = dict(
+   text="Strings.tla enumerates every string over a 14-symbol HTML and a 13-symbol CSS punctuation alphabet up to the bound (every "
+        "prefix is a state) and simulates longer ones; prefixes and one-character mutations of valid documents are added. For every "
+        "string and every position from -1 to len+1 the real html scan / match / balanced_outward / balanced_inward (HTML and XML mode) / "
+        "attributes and css scan / match / balanced_outward / balanced_inward / split_value are called; every result or raised "
+        "exception is one event of a trace validated by Trace_ScanMonitor.tla: no call raises; every range satisfies 0 <= start <= end "
+        "<= len; HTML tags start with '<', end with '>', carry their name right after '<' or '</', come in increasing non-overlapping "
+        "order; match equals the first entry of balanced_outward; outward entries strictly contain each other and the position; inward "
+        "entries lie inside each other; css delimiters lie in -1..len-1.",
+   note="The specification is the acceptance monitor of the property plus the exhaustive input generator (length 3 quick / 4 thorough, "
+        "12 simulated). A trace is judged up to its first rejected event.",
+   technique="TLA+ input enumeration (TLC) + code->spec trace validation of every scanner/matcher result",
+   ref="5/C16")
+
 NOT_YET = {}
 
 def main():
